@@ -289,6 +289,7 @@ def gen_vector(tree):
     if dfl != {"length": None, "reshape": False, "allow_None": False, "forbid_negative0": False}:
         raise Untranslatable(f"check_format_input_vector defaults changed: {dfl}")
     out = []          # list of (comment, open-text) ; closed by nesting
+    reshape_guard = [False]
     state = "raw"     # raw -> arraylike -> float -> checked
     closers = 0
     lines = []
@@ -334,10 +335,17 @@ def gen_vector(tree):
                          "| Bad => Rejected | Crash => Crashed | Ok =>")
             closers += 1
         elif isinstance(s, ast.If) and ast.unparse(s.test) == "isinstance(reshape, tuple)" and not s.orelse \
-                and len(s.body) == 1 and ast.unparse(s.body[0]) == "return np.reshape(inp, reshape)":
+                and ast.unparse(s.body[-1]) == "return np.reshape(inp, reshape)" and len(s.body) in (1, 2):
             if state != "checked":
                 fail(s, "reshape before shape check")
-            lines.append(f"(* {src} *)\nif v_reshape c then reshape_rows3 s vals else")
+            if len(s.body) == 2:
+                g = s.body[0]       # if inp.size == 0: raise MagpylibBadUserInput(...)
+                if not (isinstance(g, ast.If) and ast.unparse(g.test) == "inp.size == 0" and not g.orelse
+                        and len(g.body) == 1 and is_raise_bad(g.body[0])):
+                    fail(g, "guard in the reshape branch")
+                reshape_guard[0] = True
+            lines.append(f"(* {src} *)\nif v_reshape c then (if reshape_rejects_empty && (size s =? 0) then Rejected "
+                         "else reshape_rows3 s vals) else")
         elif isinstance(s, ast.If) and is_name(s.test, "forbid_negative0") and not s.orelse and len(s.body) == 1 \
                 and isinstance(s.body[0], ast.If) and not s.body[0].orelse and len(s.body[0].body) == 1 \
                 and is_raise_bad(s.body[0].body[0]):
@@ -359,7 +367,9 @@ def gen_vector(tree):
     if not done:
         raise Untranslatable("check_format_input_vector does not end in `return inp`")
     body = "\n".join(lines) + "\n" + " end" * closers
-    pre = ("(* np.reshape(inp, (-1, 3)) *)\n"
+    pre = ("(* `if inp.size == 0: raise MagpylibBadUserInput` in front of the reshape (an empty path is rejected) *)\n"
+           f"Definition reshape_rejects_empty : bool := {coq_bool(reshape_guard[0])}.\n\n"
+           "(* np.reshape(inp, (-1, 3)) *)\n"
            "Definition reshape_rows3 (s : shape) (vals : list Q) : vout :=\n"
            "  if (size s) mod 3 =? 0 then Stored (Some ([size s / 3; 3], vals)) else Crashed.\n\n")
     return pre + "Definition check_format_input_vector (c : vcfg) (inp : vinput) : vout :=\n" + body + ".\n", dfl
@@ -545,6 +555,32 @@ def gen_cylseg(tree, vec_defaults):
             "Stored (Some (s, vals))\n"
             "  | _ => Crashed   (* tuple unpacking fails *)\n  end\n"
             "| r => r end.\n")
+
+
+def parse_tetrahedron(tree, vec_defaults):
+    """check_format_input_tetrahedron, if the file defines it: the literal inner vector configuration followed by
+    `if inp is not None: if np.linalg.matrix_rank(inp[1:] - inp[0]) < 3: raise MagpylibBadUserInput` ; return inp.
+    Returns the Coq vcfg term, or None when the function does not exist."""
+    fns = [n for n in tree.body if isinstance(n, ast.FunctionDef) and n.name == "check_format_input_tetrahedron"]
+    if not fns:
+        return None
+    fn = fns[0]
+    if argnames(fn) != ["inp"]:
+        raise Untranslatable("check_format_input_tetrahedron signature")
+    body = strip_doc(fn.body)
+    if len(body) != 3:
+        raise Untranslatable("check_format_input_tetrahedron: expected 3 statements")
+    cfg = vcfg_from_call(inner_vector_call(body[0], "tetrahedron"), vec_defaults)
+    s = body[1]
+    ok = (isinstance(s, ast.If) and ast.unparse(s.test) == "inp is not None" and not s.orelse and len(s.body) == 1
+          and isinstance(s.body[0], ast.If) and not s.body[0].orelse and len(s.body[0].body) == 1
+          and is_raise_bad(s.body[0].body[0])
+          and ast.unparse(s.body[0].test) == "np.linalg.matrix_rank(inp[1:] - inp[0]) < 3")
+    if not ok:
+        fail(s, "tetrahedron coplanarity guard")
+    if not (isinstance(body[2], ast.Return) and is_name(body[2].value, "inp")):
+        fail(body[2], "tetrahedron return")
+    return cfg
 
 
 def generate(repo):
